@@ -163,7 +163,8 @@ def run(ctx):
             sdesc = {"dataset": "sharded", "legacy_index_data": legacy,
                      "bits": [ds1["m"], ds1["s"], ds1["p"]], "enc": [ds1["index_enc"], ds1["data_enc"]]}
             try:
-                hacc = get_accessor_for_url(srv.url + "/sh" + rng.choice(["", "/"]))
+                surl = srv.url + "/sh" + rng.choice(["", "/"])
+                hacc = get_accessor_for_url(surl)
             except Exception as exc:  # noqa
                 ctx.oracle_fail(f"opening a sharded HTTP dataset raised {type(exc).__name__}: {exc}", sdesc)
                 continue
@@ -183,6 +184,28 @@ def run(ctx):
                     ctx.oracle_fail("sharded chunk fetched over HTTP differs from what the local reader returns",
                                     dict(sdesc, scale=key, cell=list(cell), got=str(got)[:80]))
                     break
+            # the SAME URL opened again in the same process (a viewer or a second command in one session): dispatch and
+            # bytes must not depend on what an earlier opening left behind
+            for again in (2, 3):
+                try:
+                    h2 = get_accessor_for_url(surl)
+                except Exception as exc:  # noqa
+                    ctx.oracle_fail(f"opening the same sharded HTTP dataset a {again}. time raised {type(exc).__name__}: {exc}", sdesc)
+                    break
+                if not isinstance(h2, ShardedHttpAccessor):
+                    ctx.oracle_fail(f"the {again}. opening of a sharded dataset's URL was not dispatched to the sharded reader",
+                                    dict(sdesc, got=type(h2).__name__))
+                    break
+                for key, ds, cell in order[:4]:
+                    try:
+                        got = h2.fetch_chunk(key, shardlib.coords_of(ds, cell))
+                    except Exception as exc:  # noqa
+                        got = f"!{type(exc).__name__}: {exc}"
+                    ctx.case(("sharded-reopened", again, key, cell, ds["payload"][cell], legacy))
+                    if got != ds["payload"][cell]:
+                        ctx.oracle_fail("sharded chunk fetched through a re-opened URL differs from what the local reader returns",
+                                        dict(sdesc, opening=again, scale=key, cell=list(cell), got=str(got)[:80]))
+                        break
             # read_bytes of the HTTP shard objects against the local shard reader and the files
             from neuroglancer_scripts.sharded_file_accessor import ShardedFileAccessor
             try:
